@@ -262,6 +262,23 @@ def run_case(case) -> CaseResult:
                         h.deliver(side, next(chunker) if chunker else None)
                     h.settle()
 
+        for ci, fin in enumerate(case.get('finish', [])[:nchan]):
+            # the command ends: EOF and channel close leave back to back and
+            # reach a receiver that may have reading paused (or, with no
+            # pump so far, has not even started reading).  Only where the
+            # client has written nothing (data still unsent when the CLOSE
+            # arrives is discarded by design)
+            if fin == 's-exit' and not sent.get((ci, 'i')):
+                chan = ssessions[ci].chan
+
+                if (ci, 's') not in eof_sent:
+                    eof_sent.add((ci, 's'))
+                    labels.add('eof')
+                    h.call(chan.write_eof)
+
+                h.call(chan.exit, 0)
+                labels.add('exit-right-after-eof')
+
         for ci in range(nchan):
             h.call(cchans[ci].resume_reading)
             h.call(ssessions[ci].chan.resume_reading)
@@ -402,6 +419,8 @@ def strategy(tier: str):
             st.tuples(st.just('pump'), st.integers(1, 8)).map(list))
         ops = draw(st.lists(op, min_size=1, max_size=max_ops))
         return {'srv': srv, 'chans': chans, 'chunks': chunks, 'ops': ops,
+                'finish': draw(st.lists(pick([None, None, 's-exit']),
+                                        min_size=3, max_size=3)),
                 'srekey': draw(pick([0, 0, 0, 300, 700, 20000])),
                 'crekey': draw(pick([0, 0, 0, 300, 700, 20000]))}
 
@@ -561,7 +580,7 @@ FAMILIES = [
            budget={'quick': 320, 'thorough': 6000},
            required={'all': ['write>window', 'write>pkt', 'multibyte-split',
                              'multi-chan', 'eof', 'pause', 'chunk-1byte',
-                             'rekey']},
+                             'rekey', 'exit-right-after-eof']},
            timeout_is_violation=True, case_timeout=120),
     Family('streams', run_streams, strategy=streams_strategy,
            budget={'quick': 600, 'thorough': 8000},
